@@ -19,19 +19,19 @@ def _hs(maxlen, tiers, tag, timeout):
 prop("C05", "proof",
      "Thread-modular rely/guarantee proof (DESIGN P6, P8) of the real ringbuf.c compiled against a shadow <stdatomic.h>: ringbuf_put is verified as the producer "
      "under the coarsest interference the consumer's guarantee permits before every atomic operation, ringbuf_get / ringbuf_empty as the consumer under the producer's; "
-     "each role's own atomic steps are shown to stay within its guarantee. Buffer length is symbolic (2..65536 quick, 2..2^31-1 thorough), indices anywhere including the wrap, "
+     "each role's own atomic steps are shown to stay within its guarantee. Buffer length is symbolic (2..2^31-1 in both tiers), indices anywhere including the wrap, "
      "byte values symbolic. Exactly-once / in-order / value delivery is proved for prophecy-chosen watched bytes (ghost state), which covers every byte. "
      "All interleavings at atomic-operation granularity of one producer and one consumer are covered without enumerating schedules (free preemption subsumes interrupt-style preemption).",
-     _hs(65536, ("quick",), "64k", 900) + _hs(0x7fffffff, ("thorough",), "2g", 3600),
+     _hs(0x7fffffff, ("quick", "thorough"), "2g", 1800),
      trusted=["atomic operations are indivisible and sequentially consistent at this level (C07 bridges to weak memory)",
               "soundness of thread-modular (rely/guarantee) reasoning with interference at atomic-operation granularity, justified by the ownership obligations"],
      assumptions=["termination of ringbuf_putchar (while(!ringbuf_put())) needs consumer progress: liveness, not claimed",
-                  "quick tier: buf_len <= 65536; thorough: buf_len <= 2^31-1 (indices are unsigned int)"])
+                  "buf_len <= 2^31-1 in both tiers (indices are unsigned int)"])
 claim("C05", "proof",
       "thread-modular rely/guarantee contracts on the real ringbuf.c via a shadow <stdatomic.h> (CBMC), ghost watched bytes, symbolic buffer length",
       "Every interleaving of one producer and one consumer at atomic-operation granularity, every buffer length up to the tier's bound, every index position and byte value are covered by the per-role proofs; "
       "no schedule is enumerated.",
-      "SC atomics; RG soundness argument on paper; termination of ringbuf_putchar not claimed; quick tier bounds buf_len by 65536.",
+      "SC atomics; RG soundness argument on paper; termination of ringbuf_putchar not claimed; buf_len <= 2^31-1.",
       "DESIGN.md 5.C05")
 mut("C05", "put-publish-before-write", [("librfn/ringbuf.c", "\trb->bufp[old_writei] = d;\n\tatomic_signal_fence(memory_order_seq_cst);\n\tatomic_store(&rb->writei, writei);", "\tatomic_store(&rb->writei, writei);\n\tatomic_signal_fence(memory_order_seq_cst);\n\trb->bufp[old_writei] = d;")], r"payload byte is in place|invariant", skip_tests=True)
 mut("C05", "put-full-test-dropped", [("librfn/ringbuf.c", "\tif (writei == atomic_load(&rb->readi))\n\t\treturn false;\n", "\tif (writei == atomic_load(&rb->readi) && writei != 0)\n\t\treturn false;\n")], r"catch up with readi", skip_tests=True)
